@@ -155,6 +155,20 @@ func (r *Registry) Get(metricName string, hash metrics.LabelHash, metricType met
 	return nil, nil
 }
 
+// checkLabelNames rejects label names that the client library does not accept:
+// names starting with "__" make every later Gather fail, and the label a
+// histogram ("le") or summary ("quantile") reserves for itself makes the
+// library panic when the series is created. Label names come from client
+// chosen tag keys, so they must not be able to do either.
+func checkLabelNames(labelNames []string, reserved string) error {
+	for _, labelName := range labelNames {
+		if strings.HasPrefix(labelName, model.ReservedLabelPrefix) || (reserved != "" && labelName == reserved) {
+			return fmt.Errorf("label name %s is reserved", labelName)
+		}
+	}
+	return nil
+}
+
 // refreshTTL applies the ttl of the mapping that matched the current sample to
 // an already registered series, so that a ttl changed by a config reload takes
 // effect on live series as well.
@@ -178,6 +192,9 @@ func (r *Registry) GetCounter(metricName string, labels prometheus.Labels, help 
 
 	err := r.checkHistogramNameCollision(metricName)
 	if err != nil {
+		return nil, err
+	}
+	if err := checkLabelNames(labelNames, ""); err != nil {
 		return nil, err
 	}
 
@@ -233,6 +250,9 @@ func (r *Registry) GetGauge(metricName string, labels prometheus.Labels, help st
 	if err != nil {
 		return nil, fmt.Errorf("metrics.Metric with name %s is already registered", metricName)
 	}
+	if err := checkLabelNames(labelNames, ""); err != nil {
+		return nil, err
+	}
 
 	var gaugeVec *prometheus.GaugeVec
 	if vh == nil {
@@ -277,6 +297,9 @@ func (r *Registry) GetHistogram(metricName string, labels prometheus.Labels, hel
 	}
 	if r.MetricConflicts(metricName+"_bucket", metrics.HistogramMetricType) {
 		return nil, fmt.Errorf("metrics.Metric with name %s is already registered", metricName)
+	}
+	if err := checkLabelNames(labelNames, model.BucketLabel); err != nil {
+		return nil, err
 	}
 
 	var histogramVec *prometheus.HistogramVec
@@ -337,6 +360,9 @@ func (r *Registry) GetSummary(metricName string, labels prometheus.Labels, help 
 	}
 	if r.MetricConflicts(metricName+"_count", metrics.SummaryMetricType) {
 		return nil, fmt.Errorf("metrics.Metric with name %s is already registered", metricName)
+	}
+	if err := checkLabelNames(labelNames, model.QuantileLabel); err != nil {
+		return nil, err
 	}
 
 	var summaryVec *prometheus.SummaryVec
